@@ -574,8 +574,17 @@ def ms_loops():
 def t_market_share():
     """MarketShareFCNAgent: picks one accessible market of the list (any, with the generator's weighted choice) and returns that market's FCN order"""
     specs = dict(ACCESSORS)
+    base_by_market = FCN_BY_MARKET.handler()
+
+    def by_market_of_choice(ex, st, recv, pos, kw, node):
+        # call-site obligation: the venue handed to the FCN strategy is one the agent can access (the weighted draw runs over the accessible markets only; an
+        # inaccessible venue would silently swallow the agent's decision, because submit_orders_by_market answers it with no order)
+        mkt = kw.get("market", pos[0] if pos else None)
+        st = st.copy()
+        st.oblige("C20 the market drawn by traded-volume share is one the agent can access", accessible(st, recv, st.read(mkt, "market_id").term), "pre@callsite")
+        return base_by_market(ex, st, recv, pos, kw, node)
     specs.update({("m", "Agent", "is_market_accessible"): IS_ACCESSIBLE.handler(), ("m", "MarketShareFCNAgent", "get_sum_trade_volume"): SUM_TRADE_VOLUME.handler(),
-                  ("m", "FCNAgent", "submit_orders_by_market"): FCN_BY_MARKET.handler()})
+                  ("m", "FCNAgent", "submit_orders_by_market"): by_market_of_choice})
     obl, info = MS_SUBMIT.verify(specs=specs, loops=ms_loops())
     return {"obligations": obl, "info": [info]}
 
